@@ -1,35 +1,11 @@
 import QV.Proofs.Front5
+import QV.Model.Frag
 /-! Soundness of `QV.Front.tr` w.r.t. `QV.Sem.semW`: the fragment, the assembly by structural
 induction, and the environment of the arguments. -/
 namespace QV.Sem
 open QV QV.Arith QV.Front
 
 set_option linter.unusedSimpArgs false
-
-def cmpOps : List String := ["Eq", "NotEq", "Lt", "LtE", "Gt", "GtE"]
-def binOps : List String := ["add", "sub", "mul", "mod", "xor", "and", "or", "lshift", "rshift"]
-
-mutual
-/-- the expression fragment of `C01_expr`: variables, bool / int constants, `not`, `~`, `and` / `or`,
-if-expressions, the six comparisons, `+ - * % ^ & | << >>` -/
-def inFrag : PExp → Bool
-  | .name _ => true
-  | .cbool _ => true
-  | .cint _ => true
-  | .not e => inFrag e
-  | .inv e => inFrag e
-  | .boolop _ vs => inFragList vs
-  | .ite c t e => inFrag c && inFrag t && inFrag e
-  | .cmp op l r => cmpOps.contains op && inFrag l && inFrag r
-  | .bin op l r => binOps.contains op && inFrag l && inFrag r
-  | .cchar _ => false
-  | .subs _ _ => false
-  | .tuple _ => false
-  | .unsupported _ => false
-def inFragList : List PExp → Bool
-  | [] => true
-  | e :: es => inFrag e && inFragList es
-end
 
 /-- every variable that translates denotes its value in `σ` -/
 def EnvOK (ρ : QV.Env) (env : Front.Env) (σ : SEnv) : Prop := ∀ n, Sound ρ env σ (.name n)
@@ -111,13 +87,6 @@ theorem foldl_bind (args : List (String × Ty)) (acc : Front.Env) :
 theorem initEnv_eq (args : List (String × Ty)) :
     initEnv args = args.map fun p => (⟨p.1, p.2, p.2.names p.1⟩ : Binding) := by
   unfold initEnv; rw [foldl_bind]; simp
-
-/-- the argument types the fragment covers: `bool` and `Qint[w]`, `w ≠ 1` (the library has no `Qint1`;
-a one-bit list would be handed on as a bare expression) -/
-def argTyOK : Ty → Bool
-  | .bool => true
-  | .qint w => w != 1
-  | _ => false
 
 theorem val_syms (ρ : QV.Env) (names : List String) :
     val ρ (names.map BExp.sym) = valLE (names.map ρ) := by
